@@ -27,6 +27,12 @@ CLAUSES = [
     "(fresh tensors and views of larger tensors)",
     "total on its stype's inputs (function) -> keys raises:<cls>:<stage>, shape:<cls>, non-finite:<cls>; known: "
     "timestamp-na-none-missing-raises, timestamp-year-below-min-raises",
+    # MUST-RAISE demands and the words of the statement that back them:
+    "inadmissible-strategy-accepted:<route> <- 'strategy/stype combinations that make no sense are rejected at "
+    "construction' (replacement values named by the statement: column mean / zero for numerical, zero for "
+    "multicategorical, most frequent category, oldest/newest/median time; none for embeddings), on every "
+    "construction route; no other raise is demanded anywhere in C13 (the *-raises keys classify raises where the "
+    "statement wants a value)",
     # quantifier
     "all encoder classes x admissible NA strategies -> generate() cycles KINDS x NA_ADMISSIBLE; sanity()",
     "any missing pattern, values outside the training range, unseen categories (-1) -> gen_cell",
@@ -36,6 +42,36 @@ CLAUSES = [
     "constructor: positional vs keyword; post_module None / bare module / Sequential; mode, n_bins, out_size default "
     "and non-default; forward(feat) vs forward(feat, col_names); __call__ vs .forward; after .to('cpu') / .cpu(); "
     "input a fresh tensor vs a view / row-selection of a larger one -> stats()['how'], sanity()",
+]
+
+# ERROR_PATHS of torch_frame/nn/encoder/stype_encoder.py that C13 speaks about: every raise / assert / type or
+# dtype special case, the generator kind that reaches it, the oracle key that notices its removal or change
+ERROR_PATHS = [
+    "get_na_mask float (isnan) vs integer (== -1) branch -> kind=enc numerical / categorical+timestamp with a "
+    "strategy; na-strategy-mismatch, na-none-nonzero",
+    "init_modules: five `raise ValueError` of the strategy/stype validation -> kind=reject x 4 routes; "
+    "inadmissible-strategy-accepted:<route>, admissible-strategy-rejected",
+    "init_modules: `raise ValueError('Unsupported NA strategy')` -> unreachable (the enum is exhaustive; generated "
+    "table breaks the build when a member is added)",
+    "init_modules: fill_values torch.stack (vector fills, timestamps) vs torch.tensor (scalar fills) -> kind=enc "
+    "timestamp strategies / numerical+categorical strategies; na-strategy-mismatch",
+    "reset_parameters: Sequential vs single post-module -> params=reset with post seq / seq_inplace / others "
+    "(no clause observes the post-module's own initialisation)",
+    "forward: col_names given, count mismatch `raise ValueError`; dict feat branch -> how.names in {True, wrong} "
+    "(wrong: either outcome accepted, no clause); dict feats are LinearModelEncoder's (C12)",
+    "post_forward: `raise RuntimeError` when the post-module changes the shape -> outside the quantifier "
+    "(shape-preserving post-modules); post None vs module -> how.tap / post forms; post-module-form:<cls>",
+    "na_forward: na_strategy None early return; Tensor / MultiEmbeddingTensor / MultiNestedTensor / else-raise "
+    "dispatch; clone before fill -> every kind=enc; input-mutated, na-strategy-mismatch (MultiEmbeddingTensor + "
+    "strategy is unreachable: rejected at construction)",
+    "na_forward: ndim == 3 per-column loop vs 2-D torch.where, assert on widths -> timestamp vs numerical / "
+    "categorical with a strategy; na-strategy-mismatch, leak, same-cell-differs",
+    "MultiCategoricalEmbeddingEncoder.__init__: unknown mode `raise ValueError` -> not drawn (no clause); modes "
+    "mean / sum / max all drawn",
+    "LinearBucketEncoder `.float()` mask (hard-wired float32) -> f64=False for that class (ASSUMPTIONS)",
+    "TimestampEncoder: assert TIME_TO_INDEX['YEAR'] == 0 (Props/C12 calendar_table_ok); feat.to(float32) -> f64 "
+    "timestamp cases; positional / cyclic asserts -> known findings timestamp-*-raises",
+    "PositionalEncoding / CyclicEncoding: odd out_size `raise ValueError` -> C12 lazy cases (bad_out)",
 ]
 
 PROP = "C13"
@@ -213,7 +249,8 @@ def gen_enc_case(rng, tier, cls=None):
     if cls == "TimestampEncoder" and not rng.chance(0.2):
         kw["out_size"] = rng.pick([2, 4])                 # else the default (8)
     f64 = cls != "LinearBucketEncoder" and not rng.chance(0.2)
-    how = {"ctor": rng.pick(["kw", "kw", "pos"]), "tap": not rng.chance(0.2), "names": rng.chance(0.4),
+    how = {"ctor": rng.pick(["kw", "kw", "pos"]), "tap": not rng.chance(0.2),
+           "names": rng.wpick([(5, False), (4, True), (1, "wrong")]),
            "entry": rng.pick(["call", "call", "forward"]), "move": rng.pick([None, None, "to", "cpu"]),
            "repr": rng.pick(["fresh", "fresh", "view"])}
     stats = [gen_stats(rng, st, allow_empty=True) for _ in range(ncols)]
@@ -300,7 +337,8 @@ def call(enc, tap, feat):
     with torch.no_grad():
         if HOW.get("names"):
             ncols = feat.shape[1] if not isinstance(feat, dict) else None
-            out = f(feat, [f"col{j}" for j in range(ncols)])
+            extra = 1 if HOW.get("names") == "wrong" else 0       # a col_names list of the wrong length
+            out = f(feat, [f"col{j}" for j in range(ncols + extra)])
         else:
             out = f(feat)
     # without the tap (post_module None): the output IS the value before any post-module
@@ -656,6 +694,8 @@ def oracle(case, obs):
             return dict(key=f"raises:{cls}:call:{route}", what=f"{cls}(na_strategy={case['na']}) accepted by the "
                         f"{route} route but a call raised {obs.get('run_exc')}: {obs.get('msg')}")
         return None
+    if (case.get("how") or {}).get("names") == "wrong" and not obs["ok"] and obs["stage"] == "call":
+        return None              # a col_names list of the wrong length: no clause demands a raise or a value
     known = expected_finding(case)
     carved = outside_na_clause(case, case["feat"])
     if not obs["ok"] and carved and obs["stage"] == "call":
@@ -907,7 +947,8 @@ def sanity(cases, obss):
     if d["perturbations"] and d["perturbations_effective"] < 0.5 * d["perturbations"]:
         probs.append("fewer than half of the single-cell perturbations changed anything")
     if n >= 200:
-        for hv in ("ctor=kw", "ctor=pos", "tap=True", "tap=False", "names=True", "names=False", "entry=call",
+        for hv in ("ctor=kw", "ctor=pos", "tap=True", "tap=False", "names=True", "names=False", "names=wrong",
+                   "entry=call",
                    "entry=forward", "move=None", "move=to", "move=cpu", "repr=fresh", "repr=view"):
             if d["how"].get(hv, 0) == 0:
                 probs.append(f"calling convention {hv} never drawn")
@@ -1022,6 +1063,8 @@ def coq_term(case, obs):
         return f"check_reject {H.cstype(case['stype'])} {H.cna(case['na'])} {C.cbool(obs['raised'])}"
     if not obs.get("ok") and obs.get("stage") != "call":
         return None
+    if not obs.get("ok") and (case.get("how") or {}).get("names") == "wrong":
+        return None              # the model does not take col_names; nothing to compare
     cfg = (f"(qconfig {coq_encoder(case)} {C.clist(case['stats'], lambda s: coq_stats(case['stype'], s))} "
            f"{case['channels']}%nat {H.cna(case['na'])})")
     x = coq_input(case, case["feat"])
